@@ -397,6 +397,28 @@ pub fn run_interp(c: &Case, bufs: &Bufs, budget: u64, trace_cap: usize) -> Inter
                     }
                 }
             }
+            // ... and hundreds of registrations later the function registered LAST under each id is
+            // the one that is called
+            if repeat.is_none() && n > 0 && !c.helpers.is_empty() {
+                for _ in 0..300 {
+                    for (id, j) in &c.helpers {
+                        let _ = vm.register_helper(*id, helper_for((*j + 1) % hlp::NH, fam));
+                        let _ = vm.register_helper(*id, helper_for(*j, fam));
+                    }
+                }
+                bufs.reset(c);
+                hlp::log_reset();
+                hooks::reset(budget, true);
+                let r4 = vm.exec(bufs.pkt_raw(), bufs.mbuff_raw());
+                let same = match (&r, &r4) {
+                    (Ok(a), Ok(b)) => a == b,
+                    (Err(_), Err(_)) => true,
+                    _ => false,
+                } && steps1 == hooks::count() && hash1 == hooks::pc_hash() && nlog1 == hlp::log_total();
+                if !same {
+                    repeat = Some(format!("after 600 more register_helper calls per id (the last one registering the same function as at first): execution {:?}, first execution {:?}", r4.as_ref().map_err(|e| e.chars().take(60).collect::<String>()), r.as_ref().map_err(|e| e.chars().take(60).collect::<String>())));
+                }
+            }
             // leave the hooks / buffers / log as the first execution left them
             bufs.reset(c);
             hlp::log_reset();
